@@ -126,6 +126,66 @@ theorem header_field_readback (table : List Row) (sets : List (String × Src)) (
   · exact List.mem_map.2 ⟨r, List.mem_filter.2 ⟨hr, by simp [hp]⟩, rfl⟩
   · rw [length_payload]; exact hi
 
+theorem length_headerBytes (table : List Row) (sets : List (String × Src)) (a : WArgs) :
+    (headerBytes table sets a).length = headerLen := by
+  simp [headerBytes, slice]
+
+theorem getD_append_l (l₁ l₂ : List Nat) (i : Nat) (h : i < l₁.length) : (l₁ ++ l₂).getD i 0 = l₁.getD i 0 := by
+  simp only [List.getD_eq_getElem?_getD, List.getElem?_append_left h]
+
+theorem getD_append_r (l₁ l₂ : List Nat) (i : Nat) (h : l₁.length ≤ i) : (l₁ ++ l₂).getD i 0 = l₂.getD (i - l₁.length) 0 := by
+  simp only [List.getD_eq_getElem?_getD, List.getElem?_append_right h]
+
+/-- a header field of the complete file reads back the bytes packed into it -/
+theorem file_field_readback (table : List Row) (sets : List (String × Src)) (a : WArgs) (vals : List Float)
+    (hwf : rowsWellFormed table = true) (hdj : disjointRows table = true)
+    (r : Row) (hr : r ∈ table) (hp : r.isPad = false) (i : Nat) (hi : i < r.size) :
+    (zygoFile table sets a vals).getD (r.lo + i) 0 = (r.payload a (lookupSrc sets r.name)).getD i 0 := by
+  have hl := length_headerBytes table sets a
+  have hw := wf_row table hwf r hr
+  simp only [zygoFile]
+  rw [getD_append_l _ _ _ (by rw [hl]; omega)]
+  exact header_field_readback table sets a hwf hdj r hr hp i hi
+
+theorem rb2 (f : List Nat) (lo v : Nat) (hv : v < 65536)
+    (h : ∀ i, i < 2 → f.getD (lo + i) 0 = (packStr 2 (encBE 2 v)).getD i 0) : hdrU16 f lo = v := by
+  have h0 := h 0 (by decide); have h1 := h 1 (by decide)
+  simp only [Nat.add_zero] at h0
+  simp only [hdrU16, h0, h1]
+  simp [packStr, encBE, encLE, decBE, decLE]
+  omega
+
+theorem rb4 (f : List Nat) (lo v : Nat) (hv : v < 4294967296)
+    (h : ∀ i, i < 4 → f.getD (lo + i) 0 = (packStr 4 (encBE 4 v)).getD i 0) : hdrU32 f lo = v := by
+  have h0 := h 0 (by decide); have h1 := h 1 (by decide); have h2 := h 2 (by decide); have h3 := h 3 (by decide)
+  simp only [Nat.add_zero] at h0
+  simp only [hdrU32, h0, h1, h2, h3]
+  simp [packStr, encBE, encLE, decBE, decLE]
+  omega
+
+theorem f32Bits_lt (x : Float) : f32Bits x < 4294967296 := by
+  simp only [f32Bits]; exact UInt32.toNat_lt _
+
+theorem field_u16 (table : List Row) (sets : List (String × Src))
+    (hwf : rowsWellFormed table = true) (hdj : disjointRows table = true)
+    (r : Row) (lo v : Nat) (a : WArgs) (vals : List Float) (hv : v < 65536)
+    (hm : r ∈ table) (hp : r.isPad = false) (hlo : r.lo = lo) (hs : r.size = 2)
+    (hraw : (lookupSrc sets r.name).raw a r = encBE 2 v) :
+    hdrU16 (zygoFile table sets a vals) lo = v := by
+  refine rb2 _ _ _ hv (fun i hi => ?_)
+  have k := file_field_readback table sets a vals hwf hdj r hm hp i (by omega)
+  rw [← hlo, k, Row.payload, hs, hraw]
+
+theorem field_u32 (table : List Row) (sets : List (String × Src))
+    (hwf : rowsWellFormed table = true) (hdj : disjointRows table = true)
+    (r : Row) (lo v : Nat) (a : WArgs) (vals : List Float) (hv : v < 4294967296)
+    (hm : r ∈ table) (hp : r.isPad = false) (hlo : r.lo = lo) (hs : r.size = 4)
+    (hraw : (lookupSrc sets r.name).raw a r = encBE 4 v) :
+    hdrU32 (zygoFile table sets a vals) lo = v := by
+  refine rb4 _ _ _ hv (fun i hi => ?_)
+  have k := file_field_readback table sets a vals hwf hdj r hm hp i (by omega)
+  rw [← hlo, k, Row.payload, hs, hraw]
+
 /-! ## flips -/
 
 
@@ -275,12 +335,6 @@ theorem length_bodyBytes (s : List Int) : (bodyBytes s).length = 4 * s.length :=
 theorem getD_take' (l : List Nat) (k i : Nat) : (l.take k).getD i 0 = if i < k then l.getD i 0 else 0 := by
   simp only [List.getD_eq_getElem?_getD, List.getElem?_take]
   split <;> rfl
-
-theorem getD_append_l (l₁ l₂ : List Nat) (i : Nat) (h : i < l₁.length) : (l₁ ++ l₂).getD i 0 = l₁.getD i 0 := by
-  simp only [List.getD_eq_getElem?_getD, List.getElem?_append_left h]
-
-theorem getD_append_r (l₁ l₂ : List Nat) (i : Nat) (h : l₁.length ≤ i) : (l₁ ++ l₂).getD i 0 = l₂.getD (i - l₁.length) 0 := by
-  simp only [List.getD_eq_getElem?_getD, List.getElem?_append_right h]
 
 theorem bodyBytes_getD (s : List Int) (j : Nat) (i : Nat) (hi : i < 4) :
     (bodyBytes s).getD (4 * j + i) 0 = (be32 (s.getD j 0)).getD i 0 := by
